@@ -566,5 +566,10 @@ for r, what in (('R41', 'mixture_model_utils / cacgmm / cACG'), ('R42', 'cwmm / 
 for r, what in (('R51', 'mixture_model_utils / cacgmm / cACG'), ('R52', 'cwmm / cbmm / Watson / Bingham / distribution.utils'), ('R53', 'gmm / gaussian / vMF / gcacgmm / vmfcacgmm'),
                 ('R54', 'beamformer / beamformer_wrapper / math.solve'), ('R55', 'permutation_alignment / initializers'), ('R56', 'mask_module / sxr_module / si_sdr / utils')):
     C.append(dict(id=f'N10-{r}-broad', kind='neutral', properties=ALLP, note=f'independent broad refactoring of {what}', patch=f'neutral_patches/{r}.patch', edits=[]))
+# ---- sixth campaign: restructured data flow (options and state in dicts / namedtuples, operands passed with *, index tuples built programmatically, functools.partial,
+#      nested functions and closures selected once, np.divide(..., out=), post-processing in loops over several results, early returns)
+for r, what in (('R61', 'mixture_model_utils / cacgmm / cACG'), ('R62', 'cwmm / cbmm / Watson / Bingham / distribution.utils'), ('R63', 'gmm / gaussian / vMF / gcacgmm / vmfcacgmm'),
+                ('R64', 'beamformer / beamformer_wrapper / math.solve'), ('R65', 'permutation_alignment / initializers'), ('R66', 'mask_module / sxr_module / si_sdr / utils')):
+    C.append(dict(id=f'N12-{r}-dataflow', kind='neutral', properties=ALLP, note=f'independent data-flow restructuring of {what}', patch=f'neutral_patches/{r}.patch', edits=[]))
 out.write_text(json.dumps(C, indent=1))
 print(len(C), 'variants ->', out)
